@@ -118,7 +118,20 @@ func c11Run(c *core.Case, o *core.Outcome) {
 
 		var rate func(time.Time) int
 		if viaRates {
-			rates, err := gaussian.CalculateGaussianRate(vol, 0, R, f, peak, sigma, strings.Join(ws, ","), "none")
+			wstr := strings.Join(ws, ",")
+			if nw > 0 {
+				// empty entries (a trailing, leading or doubled comma) are not weights
+				switch r.IntN(6) {
+				case 0:
+					wstr += ","
+				case 1:
+					wstr = "," + wstr
+				case 2:
+					wstr = strings.Replace(wstr, ",", ",,", 1) + ","
+				}
+			}
+			desc += fmt.Sprintf(" weights-string=%q", wstr)
+			rates, err := gaussian.CalculateGaussianRate(vol, 0, R, f, peak, sigma, wstr, "none")
 			if err != nil {
 				o.Violate("gauss-rejected:"+desc, "valid gaussian settings rejected: %s: %v", desc, err)
 				return
